@@ -45,6 +45,22 @@ func runTransfer(raw json.RawMessage) (res *Result, err error) {
 		return nil, err
 	}
 	h := &histRun{nested: map[int]any{}}
+	var dst stk.Stack
+	if in.DstCap > 0 {
+		dst = stk.And(in.DstCap)
+	} else {
+		dst = stk.And()
+	}
+	// element codes -900..-903: handles of the DESTINATION itself (native, alias,
+	// pointer to alias, pointer to native) sitting in the source as ordinary elements
+	for _, c := range in.Src {
+		if c <= -900 && c >= -903 {
+			dst.SetID("s900")
+			al := aliasStack(dst)
+			h.nested[-900], h.nested[-901], h.nested[-902], h.nested[-903] = dst, aliasStack(dst), &al, &dst
+			break
+		}
+	}
 	src := stk.And()
 	if in.SrcFifo {
 		src.SetFIFO(true)
@@ -59,12 +75,6 @@ func runTransfer(raw json.RawMessage) (res *Result, err error) {
 	}
 	if in.SrcErr {
 		src.SetErr(errors.New("stale error on the source"))
-	}
-	var dst stk.Stack
-	if in.DstCap > 0 {
-		dst = stk.And(in.DstCap)
-	} else {
-		dst = stk.And()
 	}
 	var dv []any
 	for _, c := range in.Dst {
@@ -165,6 +175,9 @@ func runTransfer(raw json.RawMessage) (res *Result, err error) {
 	sAfter, sj := read(src)
 	var srcT, dstT []string
 	for _, c := range in.Src {
+		if c <= -900 && c >= -903 {
+			c = -900 // read back by its ID, whatever the handle's form
+		}
 		srcT = append(srcT, codeTerm(c))
 	}
 	for _, c := range in.Dst {
@@ -237,6 +250,16 @@ func genTransfer(ctx *Ctx, emit func(any, string)) {
 			}
 		}
 	}
+	// the destination itself as an element of the source, in every handle form and position
+	for self := -900; self >= -903; self-- {
+		for pos := 0; pos < 3; pos++ {
+			for _, form := range []string{"native", "alias", "ptr", "nptr"} {
+				in := TransferInput{Form: form, DstPol: -1, Src: []int{10, 11, 12}, Dst: []int{1}}
+				in.Src[pos] = self
+				emit(in, "exhaustive")
+			}
+		}
+	}
 	n := ctx.N(300, 8000)
 	for i := 0; i < n; i++ {
 		r := ctx.Rng.Fork()
@@ -249,6 +272,9 @@ func genTransfer(ctx *Ctx, emit func(any, string)) {
 		}
 		for k := r.Intn(5); k > 0; k-- {
 			in.Dst = append(in.Dst, randVal(r, true))
+		}
+		if r.Pct(8) && len(in.Src) > 0 {
+			in.Src[r.Intn(len(in.Src))] = -900 - r.Intn(4) // the destination itself among the elements
 		}
 		if r.Pct(60) {
 			in.DstCap = len(in.Dst) + r.Intn(7)
